@@ -26,7 +26,7 @@ META = {
 GROUP = "imageproc"
 REQ = "From RV Require Import Prelude.\nFrom ImageProc Require Import Poly.\nOpen Scope Z_scope."
 THEOREMS = ["C35_simplify_polyline", "C35_simplify_polygon", "C35_hull_subset_of_input", "C35_hull_chain_left_turns",
-            "C35_hull_oracle_sound", "C35_nonvacuous"]
+            "C35_hull_oracle_sound", "C35_simplify_oracle_sound", "C35_nonvacuous"]
 
 
 def main(ctx):
